@@ -18,7 +18,7 @@ CHECKS = {
          "No model: any difference between two runs of one scenario (sequences, or a run failing where the reference completes) is a violation. One open known finding (sub-time data path) classified per differing step; flat scenarios cannot reach it and amplify any difference.", "3/C04"),
  "C06": ("exploration", "C", "runtime monitoring: contract on World.run() (ScenarioError vs. first step, named cycle) against a brute-force cycle enumerator",
          "All connection multigraphs on 1-2 simulators x 5 group placements exhaustively, 3 simulators exhaustively in the thorough tier, 4-6 sampled.", "5/C06"),
- "C08": ("exploration", "C", "runtime contracts on the real TieredInterval/TieredTime operators against a functional model, exhaustive over bounded shapes",
+ "C08": ("exploration", "C", "runtime contracts on the real TieredInterval/TieredTime operators against a functional model, exhaustive over bounded shapes; contracts on the minimum delays the real setup caches for generated scenarios",
          "Every ordered pair of equal shape (length <= 3, tiers 0..2/3): trichotomy, antisymmetry, agreement of < with the pointwise order for every departure time, transitivity, action law, associativity.", "5/C08"),
  "C11": ("exploration", "C", "runtime monitoring: decision-table contract on World.connect() plus starved-source runs; group scoping via step-set monitors with path-identified groups",
          "Exhaustive decision table over attr kinds x connection kinds x initial data x placements; rejected pairs followed by a run that shows no data-flow/wait; sibling-group scenarios under the C02/C01 monitors.", "5/C11"),
@@ -31,7 +31,7 @@ CHECKS = {
  "C13": ("fault_enumeration", "A", "runtime monitoring with fault injection: every malformed reply value x step index x simulator position; expected rejection naming the simulator",
          "Enumerates (simulator, step index, malformed value) over generated scenarios; checks error text, no further request to the offender, consistent step set of everybody.", "3/C13"),
  "C14": ("fault_enumeration", "B", "runtime monitoring with fault injection over real simulator processes: every request index x {process exit, exception, connection abort}; containment checklist (processes, finalize counts, pending tasks at loop.close(), ResourceWarnings)",
-         "Enumerates every (simulator, request index, kind) of a small catalogue with remote/in-process mixes, old-API simulators and an in-flight asynchronous request; 'stop' observed on the wire; hangs judged only if reproduced twice.", "4/C14"),
+         "Enumerates every (simulator, request index, kind) of a small catalogue with remote/in-process mixes, old-API simulators and in-flight asynchronous requests; 'stop' observed on the wire; hangs judged only if reproduced twice. Second part (engine A): generated scenarios in-process under the controlled loop, every request index failing early and late with other simulators in flight, tasks pending at loop.close() snapshotted.", "4/C14"),
  "C15": ("exploration", "B", "runtime monitoring: requests recorded by stub simulators (in-process v1/v2/v3 signatures, raw-socket process) against the version table; differential 2.x vs 3.0",
          "All version strings x explicit api_version x transport x type present/absent; failing old simulators, same-named classes, extra methods, repeated starts from one entry.", "4/C15"),
  "C16": ("exploration", "A", "runtime monitoring: exactly-once history check of set_data values with unique ids; ordering oracle; refusal of unauthorised requests",
